@@ -537,6 +537,64 @@ def rule_int_invert(repo, rule):
     return n
 
 
+def rule_domain_accepts(repo, rule):
+    """'On operands inside the documented domain it does not raise': in honest mode (a live guard, checks on) the sign
+    test check_positive - on which every comparison, abs, // and % rest - raises only for values whose bit length exceeds
+    the configured width.  The conditions of every path to a `raise` are evaluated (constant evaluation of the extracted
+    tests, is_guard() = True, ignore_errors() = False) for the in-domain bit lengths N-2, N-1, N: none may be feasible;
+    and some path must raise for N+1."""
+    from ..hints import paths_to
+    from .c03 import _ceval, _NoEval
+    lc = repo.cls(RT, "LinComb")
+    fi = lc.methods["check_positive"]
+    wp = [p for p in fi.params[1:]][:1]
+    if not wp:
+        raise AnalysisError("check_positive has no width parameter")
+    wp = wp[0]
+    raises = [n for n in ast.walk(fi.node) if isinstance(n, ast.Raise)]
+    N = 10
+    subj = "%s.value.bit_length()" % fi.params[0]
+    feasible_in, feasible_out, und = [], False, None
+    for r in raises:
+        for path in paths_to(fi.node, r):
+            for b in (N - 2, N - 1, N, N + 1):
+                env = {"is_guard()": True, "ignore_errors()": False, subj: b, wp: N, "%s is None" % wp: False}
+                try:
+                    ok = True
+                    for st in path.steps:
+                        if st[0] == "assign":
+                            try:
+                                env[st[1]] = _ceval(st[2], env)
+                            except _NoEval:
+                                env.pop(st[1], None)
+                        elif bool(_ceval(st[1], env)) != st[2]:
+                            ok = False
+                            break
+                except _NoEval as e:
+                    und = str(e)
+                    continue
+                if ok and b <= N:
+                    feasible_in.append((r, b, path))
+                if ok and b > N:
+                    feasible_out = True
+    where = fi.loc()
+    if feasible_in:
+        r, b, path = feasible_in[0]
+        conds = " and ".join(("" if pol else "not ") + "(" + norm(t) + ")" for t, pol in path.conds)
+        rule.violation(fi.loc(r), fi.fq, "raise reached when %s, for a value of bit length %s and width %s" % (
+            conds[:160], "N" if b == N else "N-%d" % (N - b), "N"),
+            "the sign test raises for values INSIDE the documented domain (bit length %s the width): comparisons, abs, // and %% of "
+            "such operands raise instead of returning Python's result" % ("equal to" if b == N else "below"), "domain/check_positive")
+    elif und and not feasible_out:
+        rule.undecided(where, fi.fq, "raise conditions of check_positive", und)
+    elif not feasible_out:
+        rule.violation(where, fi.fq, "no raise for bit length N+1", "a value wider than the configured width is accepted by the sign "
+                       "test: the comparison silently returns a wrong value", "domain/check_positive-out")
+    else:
+        rule.ok(where, fi.fq, "%d raise site(s): infeasible for bit lengths <= width, feasible for width + 1" % len(raises),
+                "honest mode: is_guard() and not ignore_errors()")
+
+
 def check(repo, rep, tier):
     rep.explanation = ("Agreement with Python for all operands is a value property; the clauses decided here are structural "
                        "necessary conditions: operand order of reflected methods, the relation each comparison tests (canonical "
@@ -569,6 +627,8 @@ def check(repo, rep, tier):
     r12 = rep.rule("R-C05-12", "selection returns the chosen alternative (shared with C02)", floor=2)
     from .c02 import rule_selection
     rule_selection(repo, r12)
+    r13 = rep.rule("R-C05-13", "the sign test raises only outside the documented domain (bit length > width)", floor=1)
+    rule_domain_accepts(repo, r13)
     r6 = rep.rule("R-C05-6", "'or raises' is not silently switched off: guard state is restored exactly (shared with C08)", floor=10)
     from .c08 import guard_discipline
     guard_discipline(repo, r6)
